@@ -124,6 +124,7 @@ def port_trace(f, g, x0, maxcor, maxiter=12, hostile=False, x0_same_object=False
 
     pts = []
     searches = []
+    fp_sensitive = int(abs(float(np.ravel(x0)[0])) * 1e6) % 5 == 1
     inner = {"on": False}  # True while the nested optimisation of the objective runs: its own line searches and updates are not the port's
 
     def fun(x):
@@ -138,6 +139,17 @@ def port_trace(f, g, x0, maxcor, maxiter=12, hostile=False, x0_same_object=False
                                 maxiter=3, maxcor=2)
             finally:
                 inner["on"] = False
+        if fp_sensitive:
+            # an objective that sets NumPy's floating-point error state at its first call (lazily initialised user code) and takes another
+            # branch (a value lower by 1000 (1 + |f|)) whenever it later finds another state than the one it left
+            if not inner.get("fp_init"):
+                inner["fp_init"] = True
+                np.seterr(over="warn", invalid="warn", under="warn")
+            else:
+                st_ = np.geterr()
+                if (st_["over"], st_["invalid"], st_["under"]) != ("warn", "warn", "warn"):
+                    v_ = f(xr)
+                    return v_ - 1000.0 * (1.0 + abs(v_))
         return f(xr)
 
     def pre(ev):
@@ -209,6 +221,10 @@ def port_trace(f, g, x0, maxcor, maxiter=12, hostile=False, x0_same_object=False
             if int(abs(float(np.ravel(x0)[0])) * 1e6) % 3 == 0:
                 # traced through the user's logger at a verbosity at which every routine reports (diagnostics must not evaluate anything)
                 kw.update(logger=probes.CapturingLogger("verif-c12").logger, iprint=int([99, 100, 101, 1000][int(abs(float(np.ravel(x0)[0])) * 1e6) // 3 % 4]))
+                # ... a logger configured for DEBUG, for INFO, or never configured below WARNING (nothing is shown then; the run is the same)
+                import logging as _lg
+
+                kw["logger"].setLevel([_lg.DEBUG, _lg.WARNING, _lg.INFO, _lg.WARNING][int(abs(float(np.ravel(x0)[0])) * 1e6) // 12 % 4])
                 consts["traced_through_logger"] = True
             if stop_at_callback is None:
                 res = minimize_lbfgsb(x0=(x0 if x0_same_object else np.array(x0, copy=True)), **kw)
